@@ -181,19 +181,19 @@ def update_packed_value(v: Any, obj: "GuppyObject", builder: DfBase[P]) -> bool:
             ).outputs()
             for field, out_wire in zip(ty.fields, wire_iterator, strict=True):
                 v = values[field.name]
-                success = update_packed_value(
-                    v, GuppyObject(field.ty, out_wire), builder
-                )
+                field_obj = GuppyObject(field.ty, out_wire)
+                success = update_packed_value(v, field_obj, builder)
                 if not success:
-                    values[field.name] = obj
+                    values[field.name] = field_obj
         case list(vs) if len(vs) > 0:
             assert is_array_type(obj._ty)
             elem_ty = get_element_type(obj._ty)
             wires = unpack_array(builder, obj._use_wire(None))
             for i, (v, wire) in enumerate(zip(vs, wires, strict=True)):
-                success = update_packed_value(v, GuppyObject(elem_ty, wire), builder)
+                elem_obj = GuppyObject(elem_ty, wire)
+                success = update_packed_value(v, elem_obj, builder)
                 if not success:
-                    vs[i] = obj
+                    vs[i] = elem_obj
         case _:
             return False
     return True
